@@ -2,7 +2,8 @@
    Property theorems only; each is closed by [exact] of a lemma of Proofs/C18.v.
 
    Reading guide (Model/C18.v):
-     parse spec          make_grammar().parseString(spec).asList(); None = ParseException
+     parse_string spec   make_grammar().parseString(spec).asList(); None = ParseException
+     parse spec          the same without parseString's tab expansion (equal: C18_tab_expansion)
      match_ lev v spec   match(v, spec) for str v, spec; [lev] is ast.literal_eval, ANY function
      all_ws w            w consists of the characters pyparsing skips (" \n\t\r")
      atom_ok a           a is a non-empty run of non-whitespace (\S) characters that does not
@@ -93,6 +94,12 @@ Theorem C18_parse_word : forall ws a rest,
   all_ws ws = true -> atom_ok a = true -> stops rest = true -> parse (ws ++ a ++ rest) = Some [a].
 Proof. exact parse_word. Qed.
 Print Assumptions C18_parse_word.
+
+(* parseString expands tabs to spaces before parsing (str.expandtabs, modelled): the token
+   list is the same as without the expansion, for every spec; so [parse] below IS parseString *)
+Theorem C18_tab_expansion : forall spec, parse_string spec = parse spec.
+Proof. exact parse_string_eq. Qed.
+Print Assumptions C18_tab_expansion.
 
 (* trailing whitespace, and whitespace followed by an operator, end a list of words;
    trailing whitespace, and whitespace followed by a non-operator word, end a disjunction *)
